@@ -83,9 +83,13 @@ func runGuarded(build func() (execution.Node, error), run func(execution.Node) (
 	return c18kit.Kind(e, p), o, note
 }
 
-func tumbleCase(r *lib.Rng, cf *lib.CaseFile) {
-	nfields := 1 + r.Intn(3)
-	idx := r.Intn(nfields)
+type tumbleInput struct {
+	nfields, idx   int
+	length, offset int64
+	script         []lib.Event
+}
+
+func genTumbleInput(r *lib.Rng, nfields, idx int) tumbleInput {
 	length := genLength(r)
 	offset := genOffset(r, length)
 	centre := pick(r, []int64{0, 0, -5000000000, 1600000000000000000, -1600000000000000000, 7})
@@ -112,38 +116,74 @@ func tumbleCase(r *lib.Rng, cf *lib.CaseFile) {
 		}
 		script = append(script, lib.Event{Rec: execution.NewRecord(vals, r.Chance(1, 5), et)})
 	}
-	kind, out, note := runGuarded(
-		func() (execution.Node, error) {
-			return c18kit.Tumble(&lib.ScriptSource{Events: script}, time.Duration(length), time.Duration(offset), idx, nfields)
-		},
-		func(n execution.Node) ([]lib.Event, error, interface{}) { return lib.RunNode(n) })
+	return tumbleInput{nfields, idx, length, offset, script}
+}
+
+func addTumble(cf *lib.CaseFile, in tumbleInput, kind int, out []lib.Event, note, how string) {
 	nrec, nwm := 0, 0
-	for _, e := range script {
+	for _, e := range in.script {
 		if e.IsWM {
 			nwm++
 		} else {
 			nrec++
 		}
 	}
-	js := map[string]interface{}{"tvf": "tumble", "window_length": length, "offset": offset, "time_field": idx,
-		"input": c18kit.EventsJSON(script), "kind": kind, "output": c18kit.EventsJSON(out), "note": note}
-	cf.Add(fmt.Sprintf("CTumble %s %s %d%%nat %s %d %s", lib.Z(length), lib.Z(offset), idx, c18kit.CoqEvents(script), kind, c18kit.CoqEvents(out)),
-		js, kind == 0 && nrec > 0 && nwm > 0 && length > 0)
+	js := map[string]interface{}{"tvf": "tumble", "how": how, "window_length": in.length, "offset": in.offset, "time_field": in.idx,
+		"input": c18kit.EventsJSON(in.script), "kind": kind, "output": c18kit.EventsJSON(out), "note": note}
+	cf.Add(fmt.Sprintf("CTumble %s %s %d%%nat %s %d %s", lib.Z(in.length), lib.Z(in.offset), in.idx, c18kit.CoqEvents(in.script), kind, c18kit.CoqEvents(out)),
+		js, kind == 0 && nrec > 0 && nwm > 0 && in.length > 0)
 	cf.Count("tumble")
 	cf.Count(fmt.Sprintf("tumble_kind_%d", kind))
-	if length <= 0 {
+	if in.length <= 0 {
 		cf.Count("tumble_length_not_positive")
 	}
-	if offset != 0 {
+	if in.offset != 0 {
 		cf.Count("tumble_with_offset")
 	}
 }
 
-func rangeCase(a, b int64, cf *lib.CaseFile) {
+func tumbleCase(r *lib.Rng, cf *lib.CaseFile) {
+	nfields := 1 + r.Intn(3)
+	in := genTumbleInput(r, nfields, r.Intn(nfields))
 	kind, out, note := runGuarded(
-		func() (execution.Node, error) { return c18kit.Range(a, b) },
-		func(n execution.Node) ([]lib.Event, error, interface{}) { return c18kit.RunLimited(n, nil, 1000) }) // every case has < 1000 values
-	js := map[string]interface{}{"tvf": "range", "start": a, "end": b, "kind": kind, "output": c18kit.EventsJSON(out), "note": note}
+		func() (execution.Node, error) {
+			return c18kit.Tumble(&lib.ScriptSource{Events: in.script}, time.Duration(in.length), time.Duration(in.offset), in.idx, in.nfields)
+		},
+		func(n execution.Node) ([]lib.Event, error, interface{}) { return lib.RunNode(n) })
+	addTumble(cf, in, kind, out, note, "constant arguments, one run")
+}
+
+// One materialized tumble node whose window_length and offset are variables of the enclosing record, run
+// several times over different inputs and under different outer records (a correlated subquery, or a
+// source polled again): every run is a case of its own.
+func tumbleRerunCase(r *lib.Rng, cf *lib.CaseFile) {
+	nfields := 1 + r.Intn(3)
+	idx := r.Intn(nfields)
+	src := &c18kit.ResettableSource{}
+	var node execution.Node
+	kind0, _, note0 := runGuarded(
+		func() (execution.Node, error) { n, err := c18kit.TumbleVar(src, idx, nfields); node = n; return n, err },
+		func(n execution.Node) ([]lib.Event, error, interface{}) { return nil, nil, nil })
+	for run, runs := 0, 2+r.Intn(2); run < runs; run++ {
+		in := genTumbleInput(r, nfields, idx)
+		if node == nil {
+			addTumble(cf, in, kind0, nil, note0, "variable arguments, node could not be built")
+			continue
+		}
+		src.Events = in.script
+		outer := []octosql.Value{octosql.NewDuration(time.Duration(in.length)), octosql.NewDuration(time.Duration(in.offset)), octosql.NewNull(), octosql.NewNull()}
+		kind, out, note := runGuarded(
+			func() (execution.Node, error) { return node, nil },
+			func(n execution.Node) ([]lib.Event, error, interface{}) {
+				return c18kit.RunInContext(n, outer, nil, 1<<20)
+			})
+		addTumble(cf, in, kind, out, note, fmt.Sprintf("variable arguments, run %d of the same node", run+1))
+		cf.Count("tumble_rerun")
+	}
+}
+
+func addRange(cf *lib.CaseFile, a, b int64, kind int, out []lib.Event, note, how string) {
+	js := map[string]interface{}{"tvf": "range", "how": how, "start": a, "end": b, "kind": kind, "output": c18kit.EventsJSON(out), "note": note}
 	cf.Add(fmt.Sprintf("CRange %s %s %d %s", lib.Z(a), lib.Z(b), kind, c18kit.CoqEvents(out)), js, kind == 0 && b-a >= 2 && a > math.MinInt64/2 && b < math.MaxInt64/2)
 	cf.Count("range")
 	if b <= a {
@@ -151,11 +191,63 @@ func rangeCase(a, b int64, cf *lib.CaseFile) {
 	}
 }
 
+func rangeCase(a, b int64, cf *lib.CaseFile) {
+	kind, out, note := runGuarded(
+		func() (execution.Node, error) { return c18kit.Range(a, b) },
+		func(n execution.Node) ([]lib.Event, error, interface{}) { return c18kit.RunLimited(n, nil, 1000) }) // every case has < 1000 values
+	addRange(cf, a, b, kind, out, note, "constant bounds, one run")
+}
+
+// One materialized range node whose bounds are variables of the enclosing record, run once per outer
+// record as a correlated subquery does:  SELECT (SELECT COUNT(*) FROM range(start => r.a, end => r.b)) FROM r.
+func rangeRerunCase(r *lib.Rng, cf *lib.CaseFile) {
+	var node execution.Node
+	kind0, _, note0 := runGuarded(
+		func() (execution.Node, error) { n, err := c18kit.RangeVar(); node = n; return n, err },
+		func(n execution.Node) ([]lib.Event, error, interface{}) { return nil, nil, nil })
+	for run, runs := 0, 2+r.Intn(3); run < runs; run++ {
+		a, b := int64(r.Intn(41))-20, int64(r.Intn(41))-20
+		if r.Chance(1, 12) {
+			a, b = math.MaxInt64-int64(r.Intn(4)), math.MaxInt64
+		}
+		if node == nil {
+			addRange(cf, a, b, kind0, nil, note0, "variable bounds, node could not be built")
+			continue
+		}
+		outer := []octosql.Value{octosql.NewInt(a), octosql.NewInt(b), octosql.NewNull(), octosql.NewNull()}
+		kind, out, note := runGuarded(
+			func() (execution.Node, error) { return node, nil },
+			func(n execution.Node) ([]lib.Event, error, interface{}) {
+				return c18kit.RunInContext(n, outer, nil, 1000)
+			})
+		addRange(cf, a, b, kind, out, note, fmt.Sprintf("variable bounds, run %d of the same node", run+1))
+		cf.Count("range_rerun")
+	}
+}
+
+// One materialized poll node; with probability 1/3 it is run a second time over a new sequence of
+// snapshots (nothing of the first run may survive in the node).
 func pollCase(r *lib.Rng, cf *lib.CaseFile) {
-	rounds := r.Intn(5)
 	nfields := 1 + r.Intn(2)
-	withWM := r.Chance(1, 8)
 	src := &c18kit.SnapshotSource{}
+	interval := time.Duration(20+r.Intn(100)) * time.Microsecond
+	var node execution.Node
+	kind0, _, note0 := runGuarded(
+		func() (execution.Node, error) { n, err := c18kit.Poll(src, nfields, interval); node = n; return n, err },
+		func(n execution.Node) ([]lib.Event, error, interface{}) { return nil, nil, nil })
+	passes := 1
+	if r.Chance(1, 3) {
+		passes = 2
+	}
+	for pass := 0; pass < passes; pass++ {
+		*src = c18kit.SnapshotSource{}
+		pollPass(r, cf, src, node, nfields, kind0, note0, pass)
+	}
+}
+
+func pollPass(r *lib.Rng, cf *lib.CaseFile, src *c18kit.SnapshotSource, node execution.Node, nfields, kind0 int, note0 string, pass int) {
+	rounds := r.Intn(5)
+	withWM := r.Chance(1, 8)
 	var coqRounds []string
 	var jsRounds []interface{}
 	for k := 0; k < rounds; k++ {
@@ -181,7 +273,13 @@ func pollCase(r *lib.Rng, cf *lib.CaseFile) {
 	var own []int // indices in out of poll's own watermarks
 	kind, out, note := runGuarded(
 		func() (execution.Node, error) {
-			return c18kit.Poll(src, nfields, time.Duration(20+r.Intn(100))*time.Microsecond)
+			if node == nil {
+				if kind0 == 2 {
+					panic(note0)
+				}
+				return nil, fmt.Errorf("%s", note0)
+			}
+			return node, nil
 		},
 		func(n execution.Node) ([]lib.Event, error, interface{}) {
 			o, e, p := c18kit.RunRecording(n, func(i int) {
@@ -210,7 +308,7 @@ func pollCase(r *lib.Rng, cf *lib.CaseFile) {
 		final = time.Unix(0, 1).UTC()
 	}
 	nows = append(nows, c18kit.NsExact(final))
-	js := map[string]interface{}{"tvf": "poll", "rounds": jsRounds, "clock": nows, "kind": kind, "output": c18kit.EventsJSON(out), "note": note}
+	js := map[string]interface{}{"tvf": "poll", "run_of_the_node": pass + 1, "rounds": jsRounds, "clock": nows, "kind": kind, "output": c18kit.EventsJSON(out), "note": note}
 	idx := cf.Add(fmt.Sprintf("CPoll %s %s %d %s", lib.CoqList(nows), lib.CoqList(coqRounds), kind, c18kit.CoqEvents(out)), js,
 		kind == 1 && rounds >= 2 && !withWM && len(out) > rounds+1)
 	// the watermark that ends round k is the instant at which round k began: read after the source's run
@@ -230,6 +328,9 @@ func pollCase(r *lib.Rng, cf *lib.CaseFile) {
 		}
 	}
 	cf.Count("poll")
+	if pass > 0 {
+		cf.Count("poll_rerun")
+	}
 	cf.Count(fmt.Sprintf("poll_rounds_%d", rounds))
 	cf.Count(fmt.Sprintf("poll_kind_%d", kind))
 	if kind == 1 && !strings.Contains(note, lib.ErrInjected.Error()) {
@@ -251,8 +352,10 @@ func main() {
 	cf.Side.Rule = "tumble: streams of 0..8 events (times near window boundaries around/before/far from the epoch, zero/NULL/extreme times, watermarks, retractions) x window_length " +
 		"(1 ns..1 week, huge, 0, negative) x offset (0, +-, larger than the length, extreme); range: (start,end) in [-20,20]^2 (all of them at the thorough tier) plus int64 edge pairs; " +
 		"poll: 0..4 rounds of 0..3 rows over a source that fails after the last round, clock read from poll's own watermarks; " +
+		"re-runs: one materialized range / tumble node whose bounds / window_length and offset are variables of the enclosing record, run 2..4 times under different outer records " +
+		"(correlated subquery) and over different inputs, and one poll node run twice — every run is a case compared with the model; " +
 		"non-trivial = tumble with a record and a watermark and a positive length / range with >= 2 values / poll with >= 2 rounds and some rows; distinct by full case text"
-	nt := f.Cases(250, 2500)
+	nt := f.Cases(200, 2000)
 	for i := 0; i < nt; i++ {
 		tumbleCase(rng.Fork(), cf)
 	}
@@ -263,16 +366,22 @@ func main() {
 			}
 		}
 	} else {
-		for i := 0; i < 140; i++ {
+		for i := 0; i < 100; i++ {
 			r := rng.Fork()
 			rangeCase(int64(r.Intn(41))-20, int64(r.Intn(41))-20, cf)
 		}
+	}
+	for i, n := 0, f.Cases(40, 400); i < n; i++ {
+		rangeRerunCase(rng.Fork(), cf)
+	}
+	for i, n := 0, f.Cases(30, 300); i < n; i++ {
+		tumbleRerunCase(rng.Fork(), cf)
 	}
 	for _, p := range [][2]int64{{math.MaxInt64 - 3, math.MaxInt64}, {math.MinInt64, math.MinInt64 + 3}, {5, math.MinInt64}, {math.MaxInt64, math.MinInt64},
 		{math.MaxInt64, math.MaxInt64}, {math.MaxInt64 - 1, math.MaxInt64}, {0, 0}, {-1, 1}, {math.MinInt64, math.MinInt64}} {
 		rangeCase(p[0], p[1], cf)
 	}
-	np := 100
+	np := 80
 	if f.Tier == "thorough" {
 		np = 600
 	}
